@@ -224,6 +224,9 @@ func (r *Result) Violate(kind, summary string, replay map[string]any) {
 	if kind != "impl-violates-property" {
 		limit = 3
 	}
+	if v := os.Getenv("VERIF_MAX_VIOLATIONS"); v != "" { // for exploring: list every violation, not only the first few
+		fmt.Sscan(v, &limit)
+	}
 	if same >= limit {
 		return
 	}
